@@ -466,7 +466,7 @@ def _solve_simplex_foc(prob, solver):
         if len(cw) != n:
             continue
         okf = _opt_formula(list(cw), c, Hs, n, cs, fresh_s=False)
-        if okf is not None and symx.space().check(z3.Not(okf[0]), timeout_ms=10000) == "unsat":
+        if okf is not None and symx.space().proved(okf[0], timeout_ms=10000):
             at(list(cw))
             prob.status = "optimal"
             _elog("kernel", "cvxpy_simplex", prob, list(cw), okf[1], "candidate")
